@@ -277,6 +277,20 @@ func (x *Exec) ptOp(h int, o string, k int, f int) (res []int) {
 	return res
 }
 
+func (x *Exec) setBounds(h, lo, hi int) {
+	it := x.pts[h]
+	if it == nil || x.dead[h] != 0 {
+		return
+	}
+	defer func() {
+		if p := recover(); p != nil {
+			x.dead[h] = 2
+			x.Panics = append(x.Panics, fmt.Sprint(p))
+		}
+	}()
+	it.SetBounds(x.bound(lo, 0), x.bound(hi, x.U.R()))
+}
+
 func (x *Exec) spanResult(s *keyspan.Span, err error) []any {
 	if err != nil {
 		return []any{-1}
@@ -350,6 +364,11 @@ func (x *Exec) Step(e Ev) {
 			delete(x.frs, h)
 		}
 		x.emit(Ev{"op": "close", "h": h})
+	case "setb":
+		// reuse: the same real iterator is re-bound (pebble.Iterator.SetBounds,
+		// levelIter moving on); the bounds stay alive until the next SetBounds
+		x.setBounds(e.I("h"), e.I("lo"), e.I("hi"))
+		x.emit(Ev{"op": "setb", "h": e.I("h"), "lo": e.I("lo"), "hi": e.I("hi")})
 	case "it":
 		res := x.ptOp(e.I("h"), e.S("o"), e.I("k"), e.I("f"))
 		if x.Collect {
